@@ -385,12 +385,12 @@ nextIntermediate:
 		if err != nil {
 			continue
 		}
+		// The chains above an intermediate depend on the certificates already in
+		// currentChain (path length limits, loop avoidance), so results must not be
+		// shared between different prefixes: a failure recorded for one prefix hid
+		// valid chains through the same intermediate reached by a shorter path.
 		var childChains [][]*Certificate
-		childChains, ok := cache[intermediateNum]
-		if !ok {
-			childChains, err = intermediate.buildChains(cache, appendToFreshChain(currentChain, intermediate), opts)
-			cache[intermediateNum] = childChains
-		}
+		childChains, err = intermediate.buildChains(cache, appendToFreshChain(currentChain, intermediate), opts)
 		chains = append(chains, childChains...)
 	}
 
